@@ -1,6 +1,6 @@
 (* Proofs/ConcatUser.v — the functions the harness registers satisfy the laws of
    Proofs/Concat.v ([UserLaw]): total and invariant under re-chunking. *)
-From Eino Require Import Base.Util Model.Concat Model.ConcatUser Proofs.Concat.
+From Eino Require Import Base.Util Model.Concat Model.ConcatUser Proofs.Concat Proofs.ConcatSuffix.
 
 Lemma nsum_app a b : nsum (a ++ b) = (nsum a + nsum b)%N.
 Proof. unfold nsum. induction a as [|x a IH]; cbn; [reflexivity|]. rewrite IH. lia. Qed.
@@ -17,4 +17,19 @@ Proof.
       * cbn [nsum fold_right]. fold (nsum ys). destruct (N.leb (nsum xs + nsum ys) 5); reflexivity.
       * apply N.leb_gt in E. destruct (N.leb (nsum xs + nsum ys) 5) eqn:E'; [|reflexivity].
         apply N.leb_le in E'. lia.
+Qed.
+
+Lemma nsum_snoc a c : nsum (a ++ [c]) = (nsum a + c)%N.
+Proof. rewrite nsum_app. cbn. lia. Qed.
+
+Lemma harness_user_law_s : @UserLawS harness_user.
+Proof.
+  split; cbn [ufn harness_user]; unfold harness_ufn; intros tag g xs ys.
+  destruct (N.eqb tag 6).
+  - intros H _ _. inversion H; subst g. rewrite nsum_snoc, nsum_app. reflexivity.
+  - destruct (N.eqb tag 7); [|discriminate]. intros H _ _. inversion H; subst g. clear H.
+    rewrite nsum_app. destruct (N.leb (nsum ys) 5) eqn:E.
+    + rewrite nsum_snoc. destruct (N.leb (nsum xs + nsum ys) 5); reflexivity.
+    + apply N.leb_gt in E. destruct (N.leb (nsum xs + nsum ys) 5) eqn:E'; [|reflexivity].
+      apply N.leb_le in E'. lia.
 Qed.
